@@ -444,4 +444,50 @@ theorem applyNM_program (ops : List (GOp K)) (st : GS K) (hI : NMInv st) (hok : 
     rw [← h1]
     exact this
 
+/-! ### locality for whole programs, post-state of resets (C05) -/
+
+theorem AgreeOff.refl (T : List Nat) (a : GS K) : AgreeOff T a a := ⟨fun _ _ _ _ => ⟨rfl, rfl⟩, fun _ _ => rfl⟩
+
+theorem AgreeOff.trans {T : List Nat} {a b c : GS K} (h1 : AgreeOff T a b) (h2 : AgreeOff T b c) :
+    AgreeOff T a c :=
+  ⟨fun i j hi hj => ⟨((h1.1 i j hi hj).1).trans ((h2.1 i j hi hj).1), ((h1.1 i j hi hj).2).trans ((h2.1 i j hi hj).2)⟩,
+   fun i hi => (h1.2 i hi).trans (h2.2 i hi)⟩
+
+theorem AgreeOff.mono {S T : List Nat} {a b : GS K} (hST : ∀ x ∈ S, x ∈ T) (h : AgreeOff S a b) : AgreeOff T a b :=
+  ⟨fun i j hi hj => h.1 i j (fun hx => hi (hST i hx)) (fun hx => hj (hST j hx)),
+   fun i hi => h.2 i (fun hx => hi (hST i hx))⟩
+
+/-- target modes of an operation -/
+def GOp.targets : GOp K → List Nat
+  | .squeeze _ _ _ _ k => [k] | .phase _ _ k => [k] | .bs _ _ _ _ k l => [k, l] | .displace _ k => [k]
+  | .loss _ k => [k] | .thermalLoss _ _ k => [k] | .initThermal _ k => [k]
+
+theorem applyNM_local (st : GS K) (op : GOp K) : AgreeOff op.targets (applyNM st op) st := by
+  cases op with
+  | squeeze c s ch sh k => exact squeeze_local st c s ch sh k
+  | phase c s k => exact phaseShift_local st c s k
+  | bs c s ct sn k l => exact beamsplitter_local st c s ct sn k l
+  | displace β k => exact displace_local st β k
+  | loss q k => exact loss_local st q k
+  | thermalLoss q add k => exact thermalLoss_local st q add k
+  | initThermal pop k => exact initThermal_local st pop k
+
+/-- any program whose operations all target modes in `T` leaves every `N`, `M`, `mean` entry of the
+other modes unchanged -/
+theorem program_local (T : List Nat) (ops : List (GOp K)) (st : GS K)
+    (h : ∀ op ∈ ops, ∀ x ∈ op.targets, x ∈ T) : AgreeOff T (ops.foldl applyNM st) st := by
+  induction ops generalizing st with
+  | nil => exact AgreeOff.refl T st
+  | cons op ops ih =>
+    simp only [List.foldl_cons]
+    exact (ih (applyNM st op) (fun o ho => h o (by simp [ho]))).trans
+      ((applyNM_local st op).mono (h op (by simp)))
+
+/-- `loss(0, k)` (vacuum preparation, mode deletion, measurement reset): mode `k` ends in vacuum,
+uncorrelated with everything -/
+theorem loss_zero_resets (st : GS K) (k j : Nat) :
+    (loss st 0 k).N k j = 0 ∧ (loss st 0 k).N j k = 0 ∧ (loss st 0 k).M k j = 0 ∧ (loss st 0 k).M j k = 0 ∧
+    (loss st 0 k).mean k = 0 := by
+  refine ⟨?_, ?_, ?_, ?_, ?_⟩ <;> by_cases hj : j = k <;> apply Cx.ext' <;> simp [loss, writeRowCol, hj]
+
 end SFV.Gauss
